@@ -1,4 +1,6 @@
 """C09 - names resolve to what was registered; unknown names are #NAME?."""
+import contextlib
+import io
 import math
 import os
 import re
@@ -405,6 +407,41 @@ def reg_classes(case):
     return sorted(out)
 
 
+# ---------------------------------------------------------------- a long-lived parser: hundreds of calls, many of them failing
+
+LONG_STEPS = ['GOOD(%d)', 'BAD%d(1)', 'FIXED(%d,2,3)', 'ABS()', 'GOOD(BAD0())', 'nosuch%d', 'GOOD(%d)+FIXED(1)', 'IFERROR(BAD1(),GOOD(%d))', 'NOSUCH(%d)', '1+', 'SUM(GOOD(%d),GOOD(1))', 'FIXED(%d)', 'ABS(1,2,3)', 'GOOD(1/0)']
+LONG_EXC = [ValueError, KeyError, ZeroDivisionError, TypeError, IndexError, AttributeError, RuntimeError, OverflowError]
+
+
+def check_long_lived(case):
+    P = hot().Parser(debug=case['debug'])
+    log = []
+    P.set_function('GOOD', lambda *a: (log.append(list(a)), sum(x for x in a if isinstance(x, int)) * 2)[1])
+    P.set_function('FIXED', lambda x: (log.append(['fixed', x]), x + 1)[1])
+    for i, E in enumerate(LONG_EXC):
+        def bad(*a, E=E):
+            raise E('host function failed')
+        P.set_function('BAD%d' % i, bad)
+    pat = case['pattern']
+    for i in range(case['n']):
+        t = LONG_STEPS[pat[i % len(pat)]]
+        k = i % 7
+        text = t.replace('%d', str(k))
+        del log[:]
+        with contextlib.redirect_stderr(io.StringIO()), contextlib.redirect_stdout(io.StringIO()):
+            P.parse(text)
+        # the verification probe: two registered functions, exact arguments, exact value
+        del log[:]
+        ret = P.parse('GOOD(%d,3)+FIXED(%d)' % (i, k))
+        want = (i + 3) * 2 + k + 1
+        if ret['error'] is not None or ret['result'] != want or log != [[i, 3], ['fixed', k]]:
+            raise Violation('on a parser that has evaluated %d formulas (pattern %r, last %r) the registered functions GOOD and FIXED in GOOD(%d,3)+FIXED(%d) were called with %r and the outcome was %r; expected calls [[%d, 3], [\'fixed\', %d]] and the value %d'
+                            % (i + 1, [LONG_STEPS[j] for j in pat], text, i, k, log, ret['error'] or ret['result'], i, k, want), ret['error'] or enc(ret['result']), want)
+
+
+long_case = st.fixed_dictionaries({'n': st.integers(20, 400), 'pattern': st.lists(st.integers(0, len(LONG_STEPS) - 1), min_size=1, max_size=5), 'debug': st.booleans()})
+
+
 def unknown_key(c):
     return 'unknown-function' if c['node'][0] == 'call' else 'unknown-variable'
 
@@ -433,6 +470,10 @@ LAWS = [
         nontrivial=lambda c: 'registered-after-first-call' in reg_classes(c) or 're-registered' in reg_classes(c),
         rule='2-12 operations on one long-lived parser - evaluate a call of a name, register / re-register a custom function under it (also names of built-ins), set variables, evaluate expressions: '
              'every evaluation gives the outcome and the custom-function call log of a fresh parser given the same registrations; non-trivial = a name registered after it was first called, or re-registered'),
+    Law('long_lived', check_long_lived, strategy=long_case, quick=100, thorough=3000, shards=(16, 16), weight=lambda c: c['n'],
+        classes=lambda c: ('n>=100',) if c['n'] >= 100 else ('n<100',), required=('n>=100',), nontrivial=lambda c: c['n'] >= 65,
+        rule='one parser evaluates 20-400 formulas following a repeating pattern of 1-5 of 14 step kinds (custom calls that succeed, custom functions raising each of 8 host exception types, arity mismatches on custom and built-in functions, unknown names, syntax errors, errors as arguments); '
+             'after every step GOOD(i,3)+FIXED(k) must call both registered functions once with exactly those arguments and give the exact value; non-trivial = at least 65 steps'),
     Law('case_variants', check_case_variant, enumerate=enum_case_variants, exhaustive=True, shards=(8, 8), weight=lambda c: 3,
         rule='every documented name in lower, capitalised, first-letter-lower and swapped case x 4 argument lists, alone, +1 and under &: the outcome is #NAME? (other spelling = other function) or exactly that of the documented spelling - never a blank or a partial value'),
 ]
